@@ -442,3 +442,53 @@ def run_retype(prog, ctx=None):
         for key, (ok, line) in sorted(verdict.items()):
             res.ob(key, ok, f, line, "" if ok else "the buffer's element type is replaced while its old content is still counted in _used: the new type's finaliser will run on elements it never constructed")
     return res
+
+
+def run_ctorcover(prog, ctx=None):
+    """CTORCOVER: inside a loop that constructs elements with traits->init(base + C, ..) (C the loop's position variable), a store
+    to the buffer's used length made before leaving the loop records C — the elements constructed so far stay covered
+    (and will be finalised); any other value there drops them or covers memory that holds no element"""
+    res = Result("CTORCOVER")
+    files = set(ctx.get("files", [])) if ctx else None
+    for f in funcs_of(prog, files):
+        tc = [(b, i, e) for b, i, e, role in trait_calls(f) if role == "init"]
+        if not tc:
+            continue
+        loops = natural_loops(f)
+        for b, i, e in tc:
+            heads = [h for h, body in loops.items() if b.id in body]
+            if not heads or not e.get("args"):
+                continue
+            body = min((loops[h] for h in heads), key=len)
+            # position variable: the variable added to the payload pointer in the constructor's first argument
+            a0 = strip(e["args"][0], all_casts=True)
+            cvars = set()
+            if a0.get("k") == "bin" and a0.get("op") == "+":
+                for side in (a0["a"], a0["b"]):
+                    s = strip(side, all_casts=True)
+                    T = f.T(s.get("t"))
+                    if s.get("k") == "ref" and "id" in s["d"] and T.get("k") in ("int", "enum"):
+                        cvars.add(s["d"]["id"])
+            if not cvars:
+                continue
+            head = [h for h in heads if loops[h] is body][0]
+            # blocks entered by leaving the loop from inside its body (not by the loop condition at the head)
+            early = set()
+            for x in body:
+                if x == head:
+                    continue
+                for sx in f.blocks[x].succ:
+                    if sx is not None and sx not in body:
+                        early |= f.reachable_from(sx, avoid=body)
+            for bid in sorted(body | early):
+                for el in f.blocks[bid].el:
+                    for n in walk_own(el):
+                        if n.get("k") == "bin" and n.get("op") == "=":
+                            l = strip(n["a"], lvalue_to_rvalue=False)
+                            if l.get("k") == "mem" and l.get("f") == "_used":
+                                r = strip(n["b"], all_casts=True)
+                                ok = r.get("k") == "ref" and r["d"].get("id") in cvars
+                                res.ob("%s:%s" % (f.qn, norm(show(n, f))[:60]), ok, f, n.get("l", f.line),
+                                       "" if ok else "inside the loop that constructs elements at %s the used length is set to %s: elements constructed so far are no longer covered (or raw memory is)" % (
+                                           norm(show(e["args"][0], f)), norm(show(n["b"], f))))
+    return res
